@@ -291,3 +291,432 @@ Proof.
     split; [exact Hnp|]. split; [apply rewrap_typed; exact Htv|]. intros Hok.
     unfold field_post. rewrite Hcl, Hsk, Hd. exists v1. split; [reflexivity|]. apply Hpost. exact Hok.
 Qed.
+
+(* ------------------------------------------------------------ the loops, one step *)
+Lemma copy_kids_cons : forall o s1 d1 cname si di leaf kk rest cur,
+  copy_kids o s1 d1 (Node cname si di leaf kk :: rest) cur =
+  if in_ignore o cname then copy_kids o s1 d1 rest cur else
+  match r_field s1 si, r_field (with_val d1 cur) di with
+  | COk cs, COk cd =>
+      let '(x, stt) := copy_tree_node o (Node cname si di leaf kk) cs cd in
+      let cur' := set_field cur di x in
+      match stt with
+      | SOk => copy_kids o s1 d1 rest cur'
+      | _ => (cur', stt)
+      end
+  | _, _ => (cur, SPanic)
+  end.
+Proof. intros; reflexivity. Qed.
+
+(* what the constructor's loop does with one destination field *)
+Lemma cfn_loop_step : forall sfs dn dexp dft rest di kids,
+  cfn_loop false sfs (field_map sfs 0 []) ((dn, dexp, dft) :: rest) di = COk kids ->
+  (* no node for this field *)
+  (cfn_loop false sfs (field_map sfs 0 []) rest (S di) = COk kids /\
+   (dexp = false \/ assoc_find (field_map sfs 0 []) dn = None \/
+    exists si sft, assoc_find (field_map sfs 0 []) dn = Some si /\
+      nth_opt sfs si = Some (dn, true, sft) /\
+      (is_shadow_kind (kind_of (unptr sft)) || is_atomic_type (unptr sft)) = false /\
+      is_struct_kind (unptr sft) = false)) \/
+  (* a node *)
+  (exists si sft leaf kk ns,
+     dexp = true /\ assoc_find (field_map sfs 0 []) dn = Some si /\
+     nth_opt sfs si = Some (dn, true, sft) /\
+     kids = Node dn si di leaf kk :: ns /\
+     cfn_loop false sfs (field_map sfs 0 []) rest (S di) = COk ns /\
+     ((leaf = true /\ (is_shadow_kind (kind_of (unptr sft)) || is_atomic_type (unptr sft)) = true) \/
+      (leaf = false /\ (is_shadow_kind (kind_of (unptr sft)) || is_atomic_type (unptr sft)) = false /\
+       is_struct_kind (unptr sft) = true /\
+       create_field_nodes false (unptr sft) (unptr dft) = COk kk))).
+Proof.
+  intros sfs dn dexp dft rest di kids H.
+  cbn [cfn_loop] in H. fold (cfn_loop false sfs (field_map sfs 0 [])) in H.
+  destruct dexp; cbn [negb] in H; [|left; split; [exact H|left; reflexivity]].
+  destruct (assoc_find (field_map sfs 0 []) dn) as [si|] eqn:Ef;
+    [|left; split; [exact H|right; left; reflexivity]].
+  destruct (field_map_ok sfs _ _ Ef) as [sft Hn]. rewrite Hn in H.
+  destruct (multi_ptr sft); [discriminate H|].
+  destruct (multi_ptr dft); [discriminate H|].
+  cbv zeta in H.
+  destruct (is_shadow_kind (kind_of (unptr sft))) eqn:Esh.
+  { destruct (cfn_loop false sfs (field_map sfs 0 []) rest (S di)) as [ns| |] eqn:Er; try discriminate H.
+    inversion H; subst kids. right. exists si, sft, true, [], ns.
+    repeat split; try reflexivity; try assumption. left. rewrite ?Esh, ?Eat. split; reflexivity. }
+  destruct (is_atomic_type (unptr sft)) eqn:Eat.
+  { destruct (cfn_loop false sfs (field_map sfs 0 []) rest (S di)) as [ns| |] eqn:Er; try discriminate H.
+    inversion H; subst kids. right. exists si, sft, true, [], ns.
+    repeat split; try reflexivity; try assumption. left. rewrite ?Esh, ?Eat. split; reflexivity. }
+  destruct (is_struct_kind (unptr sft)) eqn:Est.
+  - cbn [negb andb] in H.
+    destruct (is_struct_kind (unptr dft)); cbn [negb] in H; [|discriminate H].
+    destruct (create_field_nodes false (unptr sft) (unptr dft)) as [kk| |] eqn:Ec; try discriminate H.
+    destruct (cfn_loop false sfs (field_map sfs 0 []) rest (S di)) as [ns| |] eqn:Er; try discriminate H.
+    inversion H; subst kids. right. exists si, sft, false, kk, ns.
+    repeat split; try reflexivity; try assumption. right. rewrite ?Esh, ?Eat, ?Est. repeat split; try reflexivity; exact Ec.
+  - left. split; [exact H|]. right; right. exists si, sft. rewrite ?Esh, ?Eat, ?Est. repeat split; try assumption; reflexivity.
+Qed.
+
+(* ------------------------------------------------------------ the whole loop *)
+Lemma copy_kids_loop_sound :
+  forall o sn sfs svs dname whole sa d0,
+  opts_ok o -> flds_typed sfs svs ->
+  forall dfs, Forall (fun f : fld => kids_sound (unptr (ftyp f))) dfs ->
+  forall pre_fs pre_vs dvs kids v' stt,
+    whole = pre_fs ++ dfs ->
+    flds_typed pre_fs pre_vs -> flds_typed dfs dvs ->
+    cfn_loop false sfs (field_map sfs 0 []) dfs (length pre_fs) = COk kids ->
+    copy_kids o {| rty := Struct sn sfs; rval := VStruct svs; raddr := sa; rro := false |}
+                {| rty := Struct dname whole; rval := d0; raddr := true; rro := false |}
+                kids (VStruct (pre_vs ++ dvs)) = (v', stt) ->
+    stt <> SPanic /\
+    exists dvs', v' = VStruct (pre_vs ++ dvs') /\ flds_typed dfs dvs' /\
+      (stt = SOk -> post_each o sfs (VStruct svs) dfs dvs dvs').
+Proof.
+  intros o sn sfs svs dname whole sa d0 Ho Hsfs dfs HF.
+  induction HF as [|[[dn dexp] dft] rest Hf Hrest IH];
+    intros pre_fs pre_vs dvs kids v' stt Hw Hpre Hd Hctor Hrun.
+  - inversion Hd; subst. cbn in Hctor. inversion Hctor; subst kids.
+    cbn in Hrun. inversion Hrun; subst.
+    split; [discriminate|]. exists []. split; [reflexivity|]. split; [constructor|].
+    intros _. exact I.
+  - inversion Hd as [|f0 x fr xr Hx Hxr]; subst. cbn [ftyp snd] in Hx, Hf.
+    assert (Hcont : forall kids' x', has_type dft x' = true ->
+              cfn_loop false sfs (field_map sfs 0 []) rest (S (length pre_fs)) = COk kids' ->
+              copy_kids o {| rty := Struct sn sfs; rval := VStruct svs; raddr := sa; rro := false |}
+                {| rty := Struct dname (pre_fs ++ (dn, dexp, dft) :: rest); rval := d0;
+                   raddr := true; rro := false |}
+                kids' (VStruct (pre_vs ++ x' :: xr)) = (v', stt) ->
+              stt <> SPanic /\
+              exists dvs0, v' = VStruct (pre_vs ++ x' :: dvs0) /\ flds_typed rest dvs0 /\
+                (stt = SOk -> post_each o sfs (VStruct svs) rest xr dvs0)).
+    { intros kids' x' Hx' Hc Hr.
+      specialize (IH (pre_fs ++ [(dn, dexp, dft)]) (pre_vs ++ [x']) xr kids' v' stt).
+      rewrite app_length in IH. cbn [length] in IH. rewrite Nat.add_1_r in IH.
+      rewrite <- !app_assoc in IH. cbn [app] in IH.
+      destruct IH as [Hnp [dvs0 [Hv [Ht Hp]]]]; [reflexivity| |exact Hxr|exact Hc|exact Hr|].
+      { apply flds_typed_app; [exact Hpre|]. constructor; [exact Hx'|constructor]. }
+      split; [exact Hnp|]. exists dvs0. rewrite <- app_assoc in Hv. cbn [app] in Hv.
+      split; [exact Hv|]. split; assumption. }
+    destruct (cfn_loop_step _ _ _ _ _ _ _ Hctor)
+      as [[Hc Hskip]|[si [sft [leaf [kk [ns [Hexp [Hfind [Hnth [Hk [Hc Hcls]]]]]]]]]]].
+    + destruct (Hcont kids x Hx Hc Hrun) as [Hnp [dvs0 [Hv [Ht Hp]]]].
+      split; [exact Hnp|]. exists (x :: dvs0). split; [exact Hv|].
+      split; [constructor; assumption|].
+      intros Hok. cbn [post_each]. split; [|apply Hp; exact Hok].
+      destruct Hskip as [He|[Hn|[si [sft [Hfind [Hnth [Hcl Hsk]]]]]]].
+      * subst dexp. reflexivity.
+      * rewrite Hn. destruct (dexp && negb (in_ignore o dn)); reflexivity.
+      * destruct (dexp && negb (in_ignore o dn)); [|reflexivity]. rewrite Hfind, Hnth.
+        destruct (flds_typed_nth _ _ _ _ _ _ Hsfs Hnth) as [y [Hy Hty]].
+        cbn [sfield]. rewrite Hy. unfold field_post. rewrite Hcl, Hsk. reflexivity.
+    + subst dexp kids. rewrite copy_kids_cons in Hrun.
+      destruct (in_ignore o dn) eqn:Eig.
+      * destruct (Hcont ns x Hx Hc Hrun) as [Hnp [dvs0 [Hv [Ht Hp]]]].
+        split; [exact Hnp|]. exists (x :: dvs0). split; [exact Hv|].
+        split; [constructor; assumption|].
+        intros Hok. cbn [post_each]. rewrite Eig. cbn [negb andb].
+        split; [reflexivity|apply Hp; exact Hok].
+      * destruct (flds_typed_nth _ _ _ _ _ _ Hsfs Hnth) as [y [Hy Hty]].
+        assert (Hlen : length pre_fs = length pre_vs) by (apply flds_typed_length; exact Hpre).
+        assert (Hrs : r_field {| rty := Struct sn sfs; rval := VStruct svs; raddr := sa; rro := false |} si
+                      = COk {| rty := sft; rval := y; raddr := sa; rro := false |}).
+        { unfold r_field. simpl. rewrite Hnth, Hy. reflexivity. }
+        assert (Hrd : r_field (with_val {| rty := Struct dname (pre_fs ++ (dn, true, dft) :: rest);
+                                           rval := d0; raddr := true; rro := false |}
+                                        (VStruct (pre_vs ++ x :: xr))) (length pre_fs)
+                      = COk {| rty := dft; rval := x; raddr := true; rro := false |}).
+        { unfold r_field, with_val. simpl. rewrite nth_opt_app_0.
+          rewrite Hlen, nth_opt_app_0. reflexivity. }
+        rewrite Hrs, Hrd in Hrun.
+        destruct (copy_tree_node o (Node dn si (length pre_fs) leaf kk)
+                    {| rty := sft; rval := y; raddr := sa; rro := false |}
+                    {| rty := dft; rval := x; raddr := true; rro := false |}) as [x' st1] eqn:En.
+        assert (Hcls' :
+          (leaf = true /\ (is_shadow_kind (kind_of (unptr sft)) || is_atomic_type (unptr sft)) = true) \/
+          (leaf = false /\ (is_shadow_kind (kind_of (unptr sft)) || is_atomic_type (unptr sft)) = false /\
+           is_struct_kind (unptr sft) = true /\
+           create_field_nodes false (unptr sft) (unptr dft) = COk kk /\ kids_sound (unptr dft))).
+        { destruct Hcls as [H1|[H1 [H2 [H3 H4]]]]; [left; exact H1|].
+          right. split; [exact H1|]. split; [exact H2|]. split; [exact H3|]. split; [exact H4|exact Hf]. }
+        destruct (ctn_sound _ _ _ _ _ _ _ _ _ _ _ _ _ Ho Hcls' Hty Hx En) as [Hnp1 [Htx' Hfp]].
+        cbv zeta in Hrun. cbn [set_field] in Hrun. rewrite Hlen, set_nth_app_0 in Hrun.
+        destruct st1 as [|e|].
+        -- destruct (Hcont ns x' Htx' Hc Hrun) as [Hnp [dvs0 [Hv [Ht Hp]]]].
+           split; [exact Hnp|]. exists (x' :: dvs0). split; [exact Hv|].
+           split; [constructor; assumption|].
+           intros Hok. cbn [post_each]. rewrite Eig. cbn [negb andb]. rewrite Hfind, Hnth.
+           cbn [sfield]. rewrite Hy. split; [apply Hfp; reflexivity|apply Hp; exact Hok].
+        -- inversion Hrun; subst. split; [discriminate|]. exists (x' :: xr).
+           split; [reflexivity|]. split; [constructor; assumption|]. intros Hk; discriminate Hk.
+        -- exfalso. apply Hnp1. reflexivity.
+Qed.
+
+(* ------------------------------------------------------------ every destination type *)
+Lemma cfn_loop_nomap : forall sfs dfs di kids,
+  (forall n, assoc_find (field_map sfs 0 []) n = None) ->
+  cfn_loop false sfs (field_map sfs 0 []) dfs di = COk kids -> kids = [].
+Proof.
+  intros sfs dfs; induction dfs as [|[[dn dexp] dft] rest IH]; intros di kids Hno H.
+  - cbn in H. inversion H. reflexivity.
+  - cbn [cfn_loop] in H. rewrite Hno in H. destruct dexp; cbn [negb] in H; eapply IH; eassumption.
+Qed.
+
+Lemma post_each_nomap : forall o sfs sv dfs dvs,
+  (forall n, assoc_find (field_map sfs 0 []) n = None) ->
+  flds_typed dfs dvs -> post_each o sfs sv dfs dvs dvs.
+Proof.
+  intros o sfs sv dfs dvs Hno H. induction H as [|[[dn dexp] dft] x fr xr Hf Hr IH].
+  - exact I.
+  - cbn [post_each]. rewrite Hno. split; [|exact IH].
+    destruct (dexp && negb (in_ignore o dn)); reflexivity.
+Qed.
+
+Lemma kids_sound_nonstruct : forall dt,
+  (forall st, create_field_nodes false st dt = CPanic \/
+              exists e, create_field_nodes false st dt = CErr e) ->
+  kids_sound dt.
+Proof.
+  intros dt H o st kids sv dv sa v' stt _ Hc.
+  destruct (H st) as [E|[e E]]; rewrite E in Hc; discriminate Hc.
+Qed.
+
+Lemma cfn_nonstruct : forall st dt,
+  match dt with Struct _ _ | Atomic => False | _ => True end ->
+  create_field_nodes false st dt = CPanic \/ exists e, create_field_nodes false st dt = CErr e.
+Proof.
+  intros st dt H. destruct dt; try contradiction; destruct st; cbn;
+    first [left; reflexivity | right; eexists; reflexivity].
+Qed.
+
+Lemma kids_sound_all : forall dt, kids_sound dt /\ kids_sound (unptr dt).
+Proof.
+  induction dt as [k|n k|n fs IH|t IH|t IH|k v IHk IHv| |k i] using ty_ind';
+    try (split; apply kids_sound_nonstruct; intros st; apply cfn_nonstruct; exact I).
+  - assert (H : kids_sound (Struct n fs)).
+    { assert (HF : Forall (fun f : fld => kids_sound (unptr (ftyp f))) fs).
+      { eapply Forall_impl; [|exact IH]. intros f [_ Hf]. exact Hf. }
+      intros o st kids sv dv sa v' stt Ho Hc Hts Htd Hrun.
+      rewrite cfn_struct in Hc.
+      destruct dv as [z|s|dvs|p|s|m|z]; cbn in Htd; try discriminate Htd.
+      rewrite <- has_type_struct with (n := n) in Htd. rewrite has_type_struct in Htd.
+      apply has_types_iff in Htd.
+      destruct st as [k|sn k|sn sfs|t|t|k v| |k i]; cbn [fields_of] in Hc; try discriminate Hc.
+      - (* struct source *)
+        destruct sv as [z|s|svs|p|s|m|z]; cbn in Hts; try discriminate Hts.
+        rewrite <- has_type_struct with (n := sn) in Hts. rewrite has_type_struct in Hts.
+        apply has_types_iff in Hts.
+        destruct (copy_kids_loop_sound o sn sfs svs n fs sa (VStruct dvs) Ho Hts fs HF
+                    [] [] dvs kids v' stt eq_refl (Forall2_nil _) Htd Hc Hrun)
+          as [Hnp [dvs' [Hv [Ht Hp]]]].
+        cbn [app] in Hv. subst v'.
+        split; [exact Hnp|]. split.
+        + rewrite has_type_struct. apply has_types_iff. exact Ht.
+        + intros Hok. rewrite post_struct with (sfs := sfs); [|reflexivity]. apply Hp. exact Hok.
+      - (* time.Time as the source: no exported field *)
+        assert (Hno : forall n, assoc_find (field_map atomic_fields 0 []) n = None)
+          by (intros; reflexivity).
+        apply cfn_loop_nomap in Hc; [|exact Hno]. subst kids.
+        cbn in Hrun. inversion Hrun; subst v' stt.
+        split; [discriminate|]. split.
+        + rewrite has_type_struct. apply has_types_iff. exact Htd.
+        + intros _. rewrite post_struct with (sfs := atomic_fields); [|reflexivity].
+          apply post_each_nomap; assumption. }
+    split; exact H.
+  - split; [|apply IH].
+    apply kids_sound_nonstruct; intros st; apply cfn_nonstruct; exact I.
+  - assert (H : kids_sound Atomic).
+    { intros o st kids sv dv sa v' stt Ho Hc Hts Htd Hrun.
+      rewrite cfn_atomic in Hc. destruct (fields_of st) as [sfs| |] eqn:Ef; try discriminate Hc.
+      inversion Hc; subst kids. cbn in Hrun. inversion Hrun; subst v' stt.
+      split; [discriminate|]. split; [exact Htd|]. intros _.
+      cbn [post]. rewrite Ef. reflexivity. }
+    split; exact H.
+Qed.
+
+(* ------------------------------------------------------------ options plumbing *)
+Definition opt_ok (p : opt) : Prop :=
+  match p with OConvert _ (Some c) => conv_ok c | _ => True end.
+
+Lemma assoc_find_Forall : forall {A} (P : A -> Prop) (l : list (Z * A)) n a,
+  Forall (fun kc => P (snd kc)) l -> assoc_find l n = Some a -> P a.
+Proof.
+  intros A P l n a H. induction H as [|[k c] r Hc Hr IH]; intros Hf; cbn in Hf; [discriminate Hf|].
+  destruct (Z.eqb k n); [inversion Hf; subst; exact Hc|apply IH; exact Hf].
+Qed.
+
+Definition convs_ok (o : options) : Prop :=
+  match o_conv o with None => True | Some l => Forall (fun kc : Z * conv => conv_ok (snd kc)) l end.
+
+Lemma convs_ok_opts_ok : forall o, convs_ok o -> opts_ok o.
+Proof.
+  intros o H n c Hf. unfold find_conv in Hf. unfold convs_ok in H.
+  destruct (o_conv o) as [l|]; [|discriminate Hf].
+  exact (assoc_find_Forall conv_ok l n c H Hf).
+Qed.
+
+Lemma apply_opt_convs_ok : forall o p, convs_ok o -> opt_ok p -> convs_ok (apply_opt o p).
+Proof.
+  intros o p Ho Hp. destruct p as [names|name [c|]]; cbn [apply_opt].
+  - destruct names; [exact Ho|]. exact Ho.
+  - destruct (Z.eqb name 0); [exact Ho|]. unfold convs_ok in *. cbn [o_conv].
+    constructor; [exact Hp|]. destruct (o_conv o); [exact Ho|constructor].
+  - exact Ho.
+Qed.
+
+Lemma apply_opts_convs_ok : forall ps o, convs_ok o -> Forall opt_ok ps -> convs_ok (apply_opts o ps).
+Proof.
+  induction ps as [|p r IH]; intros o Ho H; [exact Ho|].
+  inversion H; subst. unfold apply_opts. cbn [fold_left]. apply IH; [|assumption].
+  apply apply_opt_convs_ok; assumption.
+Qed.
+
+Lemma fold_right_cons_id : forall {A} (l : list A), fold_right (fun x acc => x :: acc) [] l = l.
+Proof. intros A l; induction l as [|a l IH]; cbn; [reflexivity|rewrite IH; reflexivity]. Qed.
+
+Lemma fold_left_cons_rev : forall {A} (l acc : list A),
+  fold_left (fun acc n => n :: acc) l acc = rev l ++ acc.
+Proof.
+  intros A l; induction l as [|a l IH]; intros acc; cbn; [reflexivity|].
+  rewrite IH, <- app_assoc. reflexivity.
+Qed.
+
+(* the per-call copy of the defaults behaves exactly like the defaults *)
+Lemma find_conv_copy_default : forall o n, find_conv (copy_default_options o) n = find_conv o n.
+Proof.
+  intros o n. unfold find_conv, copy_default_options. cbn [o_conv].
+  destruct (o_conv o) as [[|kc l]|]; try reflexivity. rewrite fold_right_cons_id. reflexivity.
+Qed.
+
+Lemma in_ignore_copy_default : forall o n, in_ignore (copy_default_options o) n = in_ignore o n.
+Proof.
+  intros o n. unfold in_ignore, copy_default_options. cbn [o_ignore].
+  destruct (o_ignore o) as [l|]; [|reflexivity].
+  rewrite fold_left_cons_rev, app_nil_r.
+  destruct (existsb (Z.eqb n) l) eqn:E.
+  - apply existsb_exists in E as [x [Hin Hx]]. apply existsb_exists. exists x.
+    split; [apply in_rev; rewrite rev_involutive; exact Hin|exact Hx].
+  - destruct (existsb (Z.eqb n) (rev l)) eqn:E'; [|reflexivity].
+    apply existsb_exists in E' as [x [Hin Hx]]. apply in_rev in Hin.
+    assert (existsb (Z.eqb n) l = true) by (apply existsb_exists; exists x; split; assumption).
+    congruence.
+Qed.
+
+Lemma copy_default_convs_ok : forall o, convs_ok o -> convs_ok (copy_default_options o).
+Proof.
+  intros o H. unfold convs_ok, copy_default_options in *. cbn [o_conv].
+  destruct (o_conv o) as [[|kc l]|]; try exact I. rewrite fold_right_cons_id. exact H.
+Qed.
+
+Definition effective_options (c : copier) (ps : list opt) : options :=
+  apply_opts (copy_default_options (c_defaults c)) ps.
+
+(* ------------------------------------------------------------ CopyTo / Copy *)
+Lemma reflect_copy_to_sound : forall st dt ps c src dv cps r stt,
+  new_reflect_copier st dt ps = COk c ->
+  Forall opt_ok ps -> Forall opt_ok cps ->
+  match src with None => True | Some sv => has_type st sv = true end ->
+  has_type dt dv = true ->
+  reflect_copy_to c st dt src (Some dv) cps = (r, stt) ->
+  stt <> SPanic /\
+  exists dv', r = Some dv' /\ has_type dt dv' = true /\
+    (stt = SOk ->
+     match src with
+     | None => dv' = dv
+     | Some sv => post (effective_options c cps) st sv dt dv dv'
+     end).
+Proof.
+  intros st dt ps c src dv cps r stt Hnew Hps Hcps Hsrc Hdv Hrun.
+  unfold new_reflect_copier, new_reflect_copier_gen in Hnew.
+  destruct (is_struct_kind st); cbn [negb] in Hnew; [|discriminate Hnew].
+  destruct (is_struct_kind dt); cbn [negb] in Hnew; [|discriminate Hnew].
+  destruct (create_field_nodes false st dt) as [kids| |] eqn:Hc; try discriminate Hnew.
+  inversion Hnew; subst c. clear Hnew.
+  unfold reflect_copy_to in Hrun. cbn [c_root c_defaults] in Hrun.
+  fold (effective_options {| c_root := Node 0 0 0 false kids; c_defaults := apply_opts new_options ps |} cps) in Hrun.
+  set (o := effective_options _ cps) in *.
+  assert (Ho : opts_ok o).
+  { apply convs_ok_opts_ok. unfold o, effective_options. cbn [c_defaults].
+    apply apply_opts_convs_ok; [|exact Hcps]. apply copy_default_convs_ok.
+    apply apply_opts_convs_ok; [exact I|exact Hps]. }
+  rewrite ctn_unfold in Hrun.
+  destruct src as [sv|].
+  - cbn [src_unwrap dst_unwrap rty rval rro raddr] in Hrun.
+    change (apply_opts (copy_default_options (apply_opts new_options ps)) cps) with o in Hrun.
+    destruct (copy_kids o {| rty := st; rval := sv; raddr := true; rro := false |}
+                {| rty := dt; rval := dv; raddr := true; rro := false |} kids dv) as [v' st1] eqn:Ek.
+    cbn [rewrap] in Hrun. inversion Hrun; subst r stt.
+    destruct (proj1 (kids_sound_all dt) o st kids sv dv true v' st1 Ho Hc Hsrc Hdv Ek) as [Hnp [Ht Hp]].
+    split; [exact Hnp|]. exists v'. split; [reflexivity|]. split; [exact Ht|exact Hp].
+  - cbn in Hrun. inversion Hrun; subst r stt.
+    split; [discriminate|]. exists dv. split; [reflexivity|]. split; [exact Hdv|]. intros _; reflexivity.
+Qed.
+
+Lemma copy_total_lemma : forall st dt ps c src dv cps,
+  new_reflect_copier st dt ps = COk c ->
+  Forall opt_ok ps -> Forall opt_ok cps ->
+  match src with None => True | Some sv => has_type st sv = true end ->
+  has_type dt dv = true ->
+  snd (reflect_copy_to c st dt src (Some dv) cps) <> SPanic /\
+  snd (reflect_copy c st dt src cps) <> SPanic.
+Proof.
+  intros st dt ps c src dv cps Hnew Hps Hcps Hsrc Hdv. split.
+  - destruct (reflect_copy_to c st dt src (Some dv) cps) as [r stt] eqn:E.
+    exact (proj1 (reflect_copy_to_sound _ _ _ _ _ _ _ _ _ Hnew Hps Hcps Hsrc Hdv E)).
+  - unfold reflect_copy.
+    destruct (reflect_copy_to c st dt src (Some (zero_value dt)) cps) as [r stt] eqn:E.
+    exact (proj1 (reflect_copy_to_sound _ _ _ _ _ _ _ _ _ Hnew Hps Hcps Hsrc (has_type_zero dt) E)).
+Qed.
+
+Lemma copy_spec_lemma : forall st dt ps c sv dv cps r,
+  new_reflect_copier st dt ps = COk c ->
+  Forall opt_ok ps -> Forall opt_ok cps ->
+  has_type st sv = true -> has_type dt dv = true ->
+  reflect_copy_to c st dt (Some sv) (Some dv) cps = (r, SOk) ->
+  exists dv', r = Some dv' /\ has_type dt dv' = true /\
+              post (effective_options c cps) st sv dt dv dv'.
+Proof.
+  intros st dt ps c sv dv cps r Hnew Hps Hcps Hsv Hdv Hrun.
+  destruct (reflect_copy_to_sound _ _ _ _ (Some sv) _ _ _ _ Hnew Hps Hcps Hsv Hdv Hrun)
+    as [_ [dv' [Hr [Ht Hp]]]].
+  exists dv'. split; [exact Hr|]. split; [exact Ht|]. apply Hp. reflexivity.
+Qed.
+
+Lemma copy_nil_src_lemma : forall st dt ps c dv cps,
+  new_reflect_copier st dt ps = COk c ->
+  reflect_copy_to c st dt None (Some dv) cps = (Some dv, SOk).
+Proof.
+  intros st dt ps c dv cps Hnew.
+  unfold new_reflect_copier, new_reflect_copier_gen in Hnew.
+  destruct (is_struct_kind st); cbn [negb] in Hnew; [|discriminate Hnew].
+  destruct (is_struct_kind dt); cbn [negb] in Hnew; [|discriminate Hnew].
+  destruct (create_field_nodes false st dt) as [kids| |]; try discriminate Hnew.
+  inversion Hnew; subst c. reflexivity.
+Qed.
+
+(* a nil destination pointer: Set on the unaddressable reflect.ValueOf(dst) *)
+Lemma copyto_nil_dst_panics_lemma : forall st dt ps c sv cps,
+  new_reflect_copier st dt ps = COk c ->
+  snd (reflect_copy_to c st dt (Some sv) None cps) = SPanic.
+Proof.
+  intros st dt ps c sv cps Hnew.
+  unfold new_reflect_copier, new_reflect_copier_gen in Hnew.
+  destruct (is_struct_kind st); cbn [negb] in Hnew; [|discriminate Hnew].
+  destruct (is_struct_kind dt); cbn [negb] in Hnew; [|discriminate Hnew].
+  destruct (create_field_nodes false st dt) as [kids| |]; try discriminate Hnew.
+  inversion Hnew; subst c. reflexivity.
+Qed.
+
+(* the zero-skip: a zero-valued source field does not overwrite a non-fresh destination *)
+Lemma copyto_zero_skip_refuted_lemma :
+  exists st dt c sv dv dv',
+    new_reflect_copier st dt [] = COk c /\
+    has_type st sv = true /\ has_type dt dv = true /\
+    reflect_copy_to c st dt (Some sv) (Some dv) [] = (Some dv', SOk) /\
+    st = dt /\                               (* same struct type: every field matches *)
+    sfield sv 0 = Some (VNum 0) /\           (* the source's value of field F1 *)
+    sfield dv' 0 = Some (VNum 5).            (* ... is not what the destination holds *)
+Proof.
+  exists (Struct None [(1, true, Basic KInt)]), (Struct None [(1, true, Basic KInt)]).
+  eexists. exists (VStruct [VNum 0]), (VStruct [VNum 5]), (VStruct [VNum 5]).
+  repeat split; vm_compute; reflexivity.
+Qed.
